@@ -194,8 +194,118 @@ def replay_deal(c):
     return bool(bad), 'deal: ' + '; '.join(bad[:2])
 
 
+class ScriptSock:
+    def __init__(self, lines):
+        self.buf = b''.join((l + '\r\n').encode() for l in lines)
+        self.sent = []
+        self.pos = 0
+        self.ev = threading.Event()
+
+    def recv(self, n):
+        if self.pos >= len(self.buf):
+            self.ev.wait(30)          # script exhausted: block like a silent peer (the replay has a timeout)
+            return b''
+        out = self.buf[self.pos:self.pos + n]
+        self.pos += n
+        return out
+
+    def sendall(self, d):
+        self.sent.append(d.decode().rstrip('\r\n'))
+
+    def close(self):
+        pass
+
+
+def replay_thread_playing(c):
+    """the REAL PlayerThread._playing_phase is run on a scripted connection and scripted queues through tricks 1..T so
+    that the counterexample's situation (own seat, declarer, seat on turn, trick, position) occurs; everything it sends is
+    compared with what the protocol entitles the connection to"""
+    from bridge_env import Player
+    from bridge_env.network_bridge.server import PlayerThread
+    N = {1: 'North', 2: 'East', 3: 'South', 4: 'West'}
+    pv, dv, av, tn, pos = c['seat'], c['declarer'], c['on_turn'], c['trick'], c['i']
+    dummy = (dv + 1) % 4 + 1
+    leaders = {}
+    for t in range(1, tn + 1):
+        leaders[t] = dv % 4 + 1 if t == 1 else dv
+    leaders[tn] = (av - 1 - pos) % 4 + 1 if tn > 1 else leaders[1]
+    if tn == 1 and (leaders[1] - 1 + pos) % 4 + 1 != av:
+        return False, 'situation not reachable at trick 1'
+    inbox, from_main, want, fwd_want = [], [N[dv]], [], []
+    for t in range(1, tn + 1):
+        from_main.append(N[leaders[t]])
+        for i in range(4):
+            a = (leaders[t] - 1 + i) % 4 + 1
+            mine = a == pv and pv != dummy
+            for_dummy = pv == dv and a == dummy
+            card = f'{N[a]} plays {"23456789TJQKA"[(t + i) % 13]}{"CDHS"[i]}'
+            if mine or for_dummy:
+                if i == 0:
+                    want.append(f'{N[pv]} to lead' if mine else 'Dummy to lead')
+                inbox.append(card)
+                fwd_want.append(card)
+            else:
+                inbox.append(f"{N[pv]} ready for {N[a] if a != dummy else 'dummy'}'s card to trick {t}")
+                from_main.append(card)
+                want.append(card)
+            if t == 1 and i == 0 and pv != dummy:
+                inbox.append(f'{N[pv]} ready for dummy')
+                from_main.append("Dummy's cards : S -. H -. D -. C -.")
+                want.append("Dummy's cards : S -. H -. D -. C -.")
+    sock = ScriptSock(inbox)
+    qs_to, qs_from = {p: queue.Queue() for p in Player}, {p: queue.Queue() for p in Player}
+    for m in from_main:
+        qs_from[Player(pv)].put(m)
+    th = PlayerThread(connection=sock, event_sync=None, event_thread=None, sent_message_queues=qs_to, received_message_queues=qs_from,
+                      players_event={}, team_names={})
+    th.player = Player(pv)
+    res = run_with_timeout(th._playing_phase, timeout=3)
+    sock.ev.set()
+    got = sock.sent
+    fwd = drain(qs_to[Player(pv)])
+    bad = []
+    if 'exc' in res:
+        bad.append(f'seat thread raised {res["exc"]!r}')
+    if got[:len(want)] != want:
+        j = next((k for k, (x, y) in enumerate(zip(got, want)) if x != y), min(len(got), len(want)))
+        bad.append(f'message {j} sent to the connection: {got[j:j + 1]}, entitled to {want[j:j + 1]}')
+    if fwd[:len(fwd_want)] != fwd_want:
+        bad.append('cards forwarded to the main thread differ from the cards the client sent')
+    return bool(bad), f'seat {N[pv]} (declarer {N[dv]}) through trick {tn}: ' + '; '.join(bad)
+
+
+def replay_thread_bidding(c):
+    from bridge_env import Player
+    from bridge_env.network_bridge.server import PlayerThread, Server
+    N = {1: 'North', 2: 'East', 3: 'South', 4: 'West'}
+    pv, av = c['seat'], c['on_turn']
+    mine = pv == av
+    call, relayed = f'{N[av]} bids 1NT Alert.', f'{N[av]} bids 1NT'
+    sock = ScriptSock([call] if mine else [f"{N[pv]} ready for {N[av]}'s bid"])
+    qs_to, qs_from = {p: queue.Queue() for p in Player}, {p: queue.Queue() for p in Player}
+    for m in [N[av]] + ([] if mine else [relayed]) + [Server.Message.NULL]:
+        qs_from[Player(pv)].put(m)
+    th = PlayerThread(connection=sock, event_sync=None, event_thread=None, sent_message_queues=qs_to, received_message_queues=qs_from,
+                      players_event={}, team_names={})
+    th.player = Player(pv)
+    res = run_with_timeout(th._bidding_phase, timeout=3)
+    sock.ev.set()
+    bad = []
+    if sock.sent != ([] if mine else [relayed]):
+        bad.append(f'connection was sent {sock.sent}')
+    if drain(qs_to[Player(pv)]) != ([call] if mine else []):
+        bad.append('forwarding to the main thread differs')
+    if res.get('ret') is not True:
+        bad.append(f'loop did not end normally: {res}')
+    return bool(bad), f'seat {N[pv]}, {N[av]} to call: ' + '; '.join(bad)
+
+
 def replay(c):
     k = c.get('kind')
+    if k == 'thread_playing':
+        return replay_thread_playing(c)
+    if k == 'thread_bidding':
+        return replay_thread_bidding(c)
     if k == 'bidding_iteration':
         return replay_bidding(c)
     if k == 'playing_iteration':
